@@ -39,7 +39,7 @@ class C18(Prop):
         else:
             sess = community_session(rng, ver)
             agent["communities"] = [sess["community"]]
-        T = rng.choice([50_000_000, 200_000_000, 1_000_000_000, 1_500_000_000, 2_500_000_000, 10_000_000_000, 50_000_000, 1_000_000_000, 5_000_000, 123_456_789, 999_999_500, 3_600_000_000_000])
+        T = rng.choice([50_000_000, 200_000_000, 1_000_000_000, 1_500_000_000, 2_500_000_000, 10_000_000_000, 50_000_000, 1_000_000_000, 5_000_000, 123_456_789, 999_999_500, 3_600_000_000_000, 7_200_000_000_000, 86_400_000_000_000])
         sess["timeout_ns"] = T
         if family == "two-sessions":
             # two sessions of one process with different timeouts, each seeing stray datagrams
@@ -89,6 +89,12 @@ class C18(Prop):
                 else:
                     rw = rng.choice([{"request-id": "xor1"}, {"request-id": "prev"}, {"community": b"nobody".hex()}, {"request-id": "zero"}])
                 items.append({"k": "genuine", "rewrite": rw, "delay_ns": t})
+            if k and not flood and rng.random() < 0.08:
+                # after the strays something undecodable: the call ends with SnmpDecodeError, and the
+                # session's timeout must be back to normal for the calls that follow
+                t += rng.randrange(T // 20, T // 4) | 1
+                if t < T - MARGIN_NS:
+                    items.append(rng.choice([{"k": "raw", "hex": "30" + "ff" * rng.randint(1, 6), "delay_ns": t}, {"k": "genuine", "outer": [{"op": "truncate", "n": rng.randrange(1, 30)}], "delay_ns": t}]))
             if rng.random() < 0.15:
                 # a stray in the last millisecond before the deadline
                 items.append({"k": "genuine", "rewrite": {"request-id": "xor1"}, "delay_ns": (T - rng.choice([800_000, 500_000, 300_000, 100_000, 20_000])) | 1})
@@ -182,6 +188,13 @@ class C18(Prop):
             slack = SLACK_NS + cost * (len(ex["rx"]) + 1)
             in_time = [m for m in match_arrivals if m[0] <= deadline - MARGIN_NS - cost * 15]
             shape.append((strays_before, "in" if in_time else ("late" if match_arrivals else "none")))
+            if any(run.dgrams[d]["label"].get("wf") is not True and run.dgrams[d]["label"].get("errno") is None for d in ex["rx"]):
+                # an undecodable datagram was consumed: SnmpDecodeError (or whatever C01 allows) is in order,
+                # only lateness is judged here
+                run.sim.count("probe.undecodable-during-wait")
+                if res["t1"] - deadline > slack:
+                    out.append(V("C18.returned-late", "call returned %.6f s after the request; timeout is %.3f s" % ((res["t1"] - t_tx) / 1e9, T / 1e9), flavour=run.plan["flavour"]))
+                continue
             sockerr = any(run.dgrams[d]["label"].get("errno") is not None for d in ex["rx"])
             if sockerr and "exc" in res and "OSError" in res["exc"]["mro"]:
                 # an injected socket error surfaced (ECONNREFUSED is reported as TimeoutError by design):
